@@ -66,6 +66,9 @@ inductive Ev where
   | lazy (k : Nat)
   | sched (task : String) (args : List Val) (delay : Option Nat) (handle : Nat)
   | timer (d : Nat)
+  | send (v : Val)
+  | chclose
+  | rxclose
   deriving DecidableEq, Repr, Inhabited
 
 /-- The effects of one method call, in order. -/
@@ -142,6 +145,27 @@ inductive Fut where
   | opaque
   | timer (d : Nat)
   deriving DecidableEq, Repr
+
+instance : ToVal Err := ⟨Val.int⟩
+instance {ε α} [ToVal ε] [ToVal α] : ToVal (Except ε α) :=
+  ⟨fun r => match r with
+    | Except.ok v => Val.pair (Val.int 0) (ToVal.toVal v)
+    | Except.error e => Val.pair (Val.int 1) (ToVal.toVal e)⟩
+
+/-- the sending half of an unbounded channel: open until `close_channel()` -/
+inductive Chan where
+  | opened
+  | closed
+  deriving DecidableEq, Repr
+/-- `sender.unbounded_send(m)`: the message goes into the channel unless the channel is closed or the receiver is
+    gone (`gone`, a parameter of the step) -/
+def emitSend {α} [ToVal α] (gone : Bool) (m : α) : Out := if gone then [] else [Ev.send (ToVal.toVal m)]
+def sendResult (gone : Bool) : Except Unit Unit := if gone then Except.error () else Except.ok ()
+def emitChClose : Out := [Ev.chclose]
+def emitRxClose : Out := [Ev.rxclose]
+def chanClosed (c : Chan) (gone : Bool) : Bool := c == Chan.closed || gone
+/-- `result.expect(..)` / `result.unwrap()` -/
+def unwrapRes {ε α} (r : Except ε α) : Option α := match r with | Except.ok v => some v | Except.error _ => none
 
 /-- `observer.next(v)` -/
 def emitNext {α} [ToVal α] (_ : Obs) (v : α) : Out := [Ev.n (Notif.next (ToVal.toVal v))]
